@@ -619,12 +619,9 @@ class ExecMixin:
             return
         if isinstance(v0, VVec):
             if not self.same_lin(st, v0.len, vb.len):
-                if v0.segs is not None or v0.elems is not None:
-                    yield (kp, "any")
-                else:
-                    yield (kp + (("len",),), "int")
-            elif v0.segs != vb.segs or v0.elems != vb.elems or v0.marks != vb.marks:
-                yield (kp, "any")
+                yield (kp + (("len",),), "int")
+            if v0.segs != vb.segs or v0.elems != vb.elems or v0.marks != vb.marks:
+                yield (kp + (("content",),), "any")
             return
         if isinstance(v0, VReader):
             if not self.same_lin(st, v0.L, vb.L):
@@ -699,7 +696,9 @@ class ExecMixin:
         hint = [(c, kp) for (c, kp), kind in havoc.items() if kind == "int"]
         # neighbourhood: int leaves in the same cells as havoced leaves and in the frame's locals
         neigh = []
-        cells = set(c for c, _ in hint) | set(frame.cells)
+        cells = set(c for c, _ in hint)
+        if self.opts.get("wide_candidates"):
+            cells |= set(frame.cells)
         for cell in cells:
             v = st0.cells.get(cell)
             if v is None:
